@@ -19,7 +19,18 @@ THEOREMS = ["C11_exec_vs_sem", "C11_run_script", "C11_machine_is_fold", "C11_fue
             "C11_statement_call", "C11_statement_call_tokens", "C11_signals_stop_at_call", "C11_defaults", "C11_return_immediate",
             "C11_return_from_loops", "C11_return_keeps_result", "C11_scope", "C11_scope_statement_call", "C11_local_writes_only",
             "C11_args_in_caller_scope", "C11_call_in_caller_scope", "C11_statement_call_in_caller_scope",
-            "C11_call_value_from_callee_frame", "C11_call_without_result"]
+            "C11_call_value_from_callee_frame", "C11_call_without_result",
+            "C11_for_unroll_text", "C11_loop_unroll_exec", "C11_loop_unroll_exec_text", "C11_for_unroll_exec",
+            "C11_for_unroll_exec_text", "C11_break_innermost_block", "C11_break_innermost_for_block",
+            "C11_continue_innermost", "C11_continue_innermost_for", "C11_loop_signals_stay_inside", "C11_for_signals",
+            "C11_for_plain_signals", "C11_break_innermost_nested", "C11_continue_skips_text", "C11_continue_skips_text_for",
+            "C11_break_innermost_exec", "C11_break_innermost_for_exec", "C11_continue_skips_exec",
+            "C11_continue_skips_for_exec", "C11_for_increment_break_refuted", "C11_for_increment_break_escapes",
+            "C11_limit_never_ends", "C11_limit_never_ends_for", "C11_limit_constant", "C11_limit_exec",
+            "C11_limit_for_exec", "C11_defaults_fill", "C11_defaults_given", "C11_defaults_missing",
+            "C11_defaults_valueless", "C11_extra_args_ignored", "C11_defaults_exec", "C11_defaults_entry_exec",
+            "C11_extra_args_exec", "C11_return_anywhere", "C11_return_value", "C11_return_from_for", "C11_return_exec",
+            "C11_scope_reads", "C11_scope_call_exec", "C11_scope_value_exec", "C11_scope_block_exec"]
 DRIVERS = ["script", "core"]
 RULE = ("programs of 2..7 statements over: leaf commands (notes c d e f g a b with lengths, rests, o/l/v/q state commands), PRINT of 1..3 "
         "integer expressions, INT declarations with and without initialiser, assignments, X++ / X--, IF with and without ELSE (conditions = "
@@ -282,17 +293,18 @@ def p_stmt(s, rng, nl=0.3):
         return s[1] + ("++" if s[2] > 0 else "--")
     if k == "if":
         bl = lambda b: "{" + rng.choice([" ", "\n", ""]) + p_block(b, rng, nl) + "}"
-        t = "%s%s(%s)%s%s" % (rng.choice(["IF", "If"]), rng.choice(["", " "]), p_cond(s[1], rng), rng.choice(["", " "]), bl(s[2]))
+        # the opening brace may stand on a later line (IF / ELSE / FOR / WHILE / FUNCTION alike)
+        t = "%s%s(%s)%s%s" % (rng.choice(["IF", "If"]), rng.choice(["", " "]), p_cond(s[1], rng), rng.choice(["", " ", "", " ", "\n", " \n  "]), bl(s[2]))
         if s[3] is not None:
-            t += rng.choice([" ", "", "\n", " \n "]) + rng.choice(["ELSE", "Else"]) + rng.choice(["", " "]) + bl(s[3])
+            t += rng.choice([" ", "", "\n", " \n "]) + rng.choice(["ELSE", "Else"]) + rng.choice(["", " ", "", " ", "\n", " \n  "]) + bl(s[3])
         return t
     if k == "while":
-        return "%s%s(%s)%s{%s%s}" % (rng.choice(["WHILE", "While"]), rng.choice(["", " "]), p_cond(s[1], rng), rng.choice(["", " "]),
+        return "%s%s(%s)%s{%s%s}" % (rng.choice(["WHILE", "While"]), rng.choice(["", " "]), p_cond(s[1], rng), rng.choice(["", " ", "", " ", "\n", " \n  "]),
                                      rng.choice([" ", "\n"]), p_block(s[2], rng, nl))
     if k == "for":
         inc = p_stmt(s[4], rng).rstrip(";")
         return "%s(%s %s=%s; %s; %s)%s{%s%s}" % (rng.choice(["FOR", "For"]), rng.choice(["INT", "Int"]), s[1], p_expr(s[2], rng), p_cond(s[3], rng),
-                                               inc, rng.choice(["", " "]), rng.choice([" ", "\n"]), p_block(s[5], rng, nl))
+                                               inc, rng.choice(["", " ", "", " ", "\n", " \n  "]), rng.choice([" ", "\n"]), p_block(s[5], rng, nl))
     if k == "break":
         return rng.choice(["BREAK", "Break", "EXIT"])
     if k == "continue":
@@ -483,6 +495,9 @@ class Gen:
         a, n = rng.choice([0, 0, 1, -1]), rng.choice([0, 1, 2, 3, 3, 4, 5])
         step = rng.choice([1, 1, 1, 2])
         inc = ("incr", i, 1) if step == 1 else ("assign", i, ("bin", "+", ("var", i), ("lit", step)))
+        if rng.random() < 0.3:
+            # parentheses inside the increment: the header ends at the ')' that closes it, not at the first one
+            inc = ("assign", i, ("bin", "+", ("var", i), ("bin", "*", ("lit", step), ("lit", 1))))
         body = self.block(vars_ + [i], depth - 1, rng.randrange(1, 4), True, in_func, written)
         return ("for", i, ("lit", a), ("cmp", rng.choice(["<", "<="]), ("var", i), ("lit", n)), inc, body)
 
